@@ -132,6 +132,10 @@ def big_graphs():
     yield "K257+3iso", 260, [(i, j) for i in range(257) for j in range(i + 1, 257)]
     yield "K256,256", 512, [(i, 256 + j) for i in range(256) for j in range(256)]
     yield "path300", 300, [(i, i + 1) for i in range(299)]
+    yield "path97", 97, [(i, i + 1) for i in range(96)]      # sizes one past a multiple of 96 / 64 / 32
+    yield "path193", 193, [(i, i + 1) for i in range(192)]
+    yield "path65", 65, [(i, i + 1) for i in range(64)]
+    yield "K400", 400, [(i, j) for i in range(400) for j in range(i + 1, 400)]  # 79800 similar pairs (more than 2^16)
     yield "star300+path", 310, [(0, i) for i in range(1, 300)] + [(300 + i, 301 + i) for i in range(9)]
 
 
